@@ -81,7 +81,7 @@ SPEC = dict(
                 "in between folded in; acks_partition_writes — acknowledgements are the writes, each once, in order; "
                 "keyed_counter_read_after_write — for the tutorial's per-key counter a get sees exactly the increments of "
                 "its key acknowledged so far, hence at least those acknowledged at any earlier tick; "
-                "prod_atomic_acks_same_tick. T: the text of atomic / batch_atomic / end_atomic / snapshot_atomic, "
+                "prod_atomic_acks_same_tick; nonatomic_snapshot_can_miss_ack (contrast: an ordinary snapshot hook may re-release an older version). T: the text of atomic / batch_atomic / end_atomic / snapshot_atomic, "
                 "batch_atomic.rs and ProdDfirBuilder::{begin_atomic,end_atomic,batch,yield_from_tick} is pinned and the "
                 "`out = in` lowering re-read each run. C: the summing register of location/tick.rs's test and an "
                 "integer-keyed copy of hydro_test::tutorials::keyed_counter (plus a non-atomic contrast program) are "
